@@ -43,8 +43,8 @@ CHECKS = [
        "Kernel-checked for all 64-bit operands: the two-comparison test the match template performs is interval membership (a..b excludes b, a..=b includes it); equality patterns use the negation "
        "of ==. Exhaustive tables (int/char/byte/string/bool domains, all ranges in the window, two-arm programs, kind pairs for the rejection rule), if/else-if chains over truthiness "
        "representatives, and generated nestings of if/match/labelled loops run through the real pipeline against P2sh.Ref/P2sh.Static.",
-       "Also kernel-checked: a while loop leaves exactly when its condition is falsey and otherwise runs its body and starts again, and the compiled loop (condition, JumpIfFalse, body, Jump back) reproduces every terminating run (while_compiled); if/else evaluates exactly one branch (core fragment). "
-       "Open: the match template at the bytecode level, break/continue, mixed_arms_rejected as a theorem."),
+       "Also kernel-checked at the bytecode level (core fragment, byte-exact with the real compiler): while / loop leave exactly when the condition is falsey or a break executes; break and continue, plain or labelled, leave / restart the innermost or the named enclosing loop (break_leaves_named_loop, continue_restarts_named_loop, …); a match evaluates its scrutinee once, runs the first matching arm and no other, yields null when none matches (match_first_arm, match_none_is_null, match_compiled); if/else evaluates exactly one branch. "
+       "Open: mixed_arms_rejected as a theorem; match arms with multi-statement bodies."),
     _c("C06", "Lean theorem falsey_table (is_falsey = documented table for every value) + exhaustive differential run of is_falsey / ! on the real code",
        "Kernel-checked: Object::is_falsey as modelled equals the documented falsey table for every value of every kind; ! yields true exactly on it and never fails. Compared with the real "
        "is_falsey and Bang opcode on representatives of every kind and random values; the if/while/&&/|| positions are exercised through the language-level engine (C02/C05).",
@@ -53,12 +53,14 @@ CHECKS = [
        "Statement shapes incl. empty match arms, branches ending in nested blocks, break/continue in every position; the real VM's height after the run must be 0 and 5000-iteration loops must "
        "not overflow. The reference semantics supplies values and control flow (break/continue leaving an expression).",
        "Kernel-checked for the core fragment (let, expression statements, blocks, while loops): every statement's code runs from any stack back to the same stack, a loop leaves with the stack it entered with whatever the number of iterations (loop_constant_stack). "
-       "Known finding K1 (break/continue with pending operands leaks a slot) is listed in known_findings.json. Open: Bcv.sound_heights; compile_balanced for match, loop, break/continue, functions."),
+       "TRANSLATION VALIDATION for everything beyond the fragment: a bytecode verifier (Model/Bcv.lean: operand ranges + abstract stack heights with equal heights at joins, end of main at height 0) is run on EVERY real compiled program of every run (op vmrun), and Bcv.sound_heights / loop_constant_stack (kernel-checked against the VM model, no assumption left) make its verdict a theorem about that program: along every execution sp = bp + numLocals + the computed height, any two visits of an instruction see the same height — functions, closures, match, break included. "
+       "Known finding K1 (break/continue with pending operands leaks a slot) is exactly what the verifier rejects (height mismatch at the join) and is listed in known_findings.json; break/continue in statement position are proved balanced (break_continue_balanced)."),
     _c("C08", "Lean theorems (no operator application panics; /0 and %0 are errors) + no-panic oracle over operators, builtins, format strings and programs in-process",
        "Kernel-checked: for every operator and every pair of values the model raises no panic (the only excluded request: repetition beyond 16 MiB), unary operators likewise, /0 and %0 are runtime "
        "errors. ≈130k cases run under catch_unwind + watchdog: every operator × kind pair × boundary values, every in-process-safe builtin × arities × kinds, format strings incl. malformed, "
        "programs with deep/unbounded recursion, wide frames, absurd shift/repeat/precision arguments.",
-       "Open: builtins_no_panic, vm_safe (bytecode verifier). Filters with return/break are covered by C20's engine."),
+       "Also kernel-checked: builtins_no_panic (no builtin model can panic, for any name and argument list; format_answers), and vm_safe — on every program the bytecode verifier accepts (Bcv.checkProgram, run on every real compiled program of every run through op vmrun) no execution of the VM model panics except with the memory exclusion's `capacity overflow`: invariant = checked code in every frame + stack heights as computed + store typing (closures carry enough captured values), preserved by every step. "
+       "Engine 5 runs filter programs with packet input end to end. Known findings: native recursion over deeply nested / self-containing values."),
     _c("C09", "Lean theorems (model of the operator opcodes meets Spec.Ops) + exhaustive kind-pair/boundary differential run against the real VM",
        "Kernel-checked: integer + - * / % and unary - ~ equal exact integer arithmetic reduced modulo 2^64 for all operands, /0 and %0 are runtime errors for every numeric kind, no operator "
        "application panics, the error rows (arrays under non-+, booleans under ordering, negative repetition), integer relational consistency with ==. Spec.Ops is the oracle for every "
